@@ -555,6 +555,8 @@ FIXED_SETS = [
 def cases(rng, tier, shard, nshards):
     nchain = shard_count(META[f'{tier}_chain'], shard, nshards)
     ngraham = shard_count(META[f'{tier}_graham'], shard, nshards)
+    # one long curve per shard in every tier
+    yield {'kind': 'chain', 'points': gen.long_spiky(rng, 3000, 6000), 'family': 'long-spiky', 'layout': 'C'}
     for i in range(nchain):
         r = rng.random()
         if r < 0.45:
